@@ -189,8 +189,10 @@ def execute(cls, scenario, ctx):
     model = dict(rrule=[], rdate=[], exrule=[], exdate=[])
     cost = [0]
     built = []          # (model list, [object for A, object for B])
+    raw = dict(rrule=[], rdate=[], exrule=[], exdate=[])   # payloads as given
 
     def add(role, payload):
+        raw[role].append(payload)
         if role in ("rrule", "exrule"):
             try:
                 ml = RL.model_list(payload)
@@ -227,6 +229,7 @@ def execute(cls, scenario, ctx):
     def add_again(k, role):
         if not built:
             return False
+        raw[role].append("again")
         ml, objs = built[k % len(built)]
         model[role].append(ml)
         ctx.probe("member_object_added_twice")
@@ -324,6 +327,74 @@ def execute(cls, scenario, ctx):
             K.set_budget(None)
     if mutated_live:
         ctx.nontrivial = True
+    text_route(ctx, raw, init)
+
+
+FREQ_NAMES = ["YEARLY", "MONTHLY", "WEEKLY", "DAILY", "HOURLY", "MINUTELY",
+              "SECONDLY"]
+
+
+def text_route(ctx, raw, init):
+    """The same membership written as iCalendar text and read by rrulestr:
+    another way into rruleset, with the listed dates in the (unsorted) order
+    in which the run added them. Only for memberships the text can state:
+    naive datetimes, whole seconds, at most one plain inclusion rule, no
+    exclusion rules."""
+    from dateutil import rrule as rr
+    if init.get("aware") or raw["exrule"] or len(raw["rrule"]) > 1:
+        return
+    for p in raw["rrule"]:
+        if not isinstance(p, dict) or p.get("kind") == "set" or \
+                set(p) - {"freq", "dtstart", "interval", "count", "cache",
+                          "shared_uncached"}:
+            return
+    dates = raw["rdate"] + raw["exdate"]
+    if any(len(d) > 6 for d in dates) or not (raw["rrule"] or raw["rdate"]):
+        return
+
+    def fmt(d):
+        return "%04d%02d%02dT%02d%02d%02d" % tuple(d[:6])
+    lines = []
+    rules_L = []
+    if raw["rrule"]:
+        p = raw["rrule"][0]
+        lines.append("DTSTART:" + fmt(p["dtstart"]))
+        lines.append("RRULE:FREQ=%s;INTERVAL=%d;COUNT=%d" % (
+            FREQ_NAMES[p["freq"]], p.get("interval", 1), p["count"]))
+        try:
+            rules_L.append(RL.model_list(dict(p, cache=False)))
+        except RL.ModelTooCostly:
+            return
+    rd, xd = raw["rdate"], raw["exdate"]
+    if rd:
+        k = len(rd) // 2
+        if k and len(rd) % 2:
+            lines.append("RDATE:" + ",".join(fmt(d) for d in rd[:k]))
+            lines.append("RDATE:" + ",".join(fmt(d) for d in rd[k:]))
+        else:
+            lines.append("RDATE:" + ",".join(fmt(d) for d in rd))
+    if xd:
+        lines.append("EXDATE:" + ",".join(fmt(d) for d in xd))
+    text = "\n".join(lines)
+    want = RL.set_model(rules_L, [RL.dt(d) for d in rd], [],
+                        [RL.dt(d) for d in xd])
+    K.set_budget(RL.budget_for(2 * RL.LAST_MODEL_COST + 2000 * len(want)))
+    try:
+        s = rr.rrulestr(text, forceset=True)
+        got = list(s)
+        n = s.count()
+    except (Deadlock, BudgetExceeded) as e:
+        ctx.violation("liveness.budget", dict(op="rrulestr", msg=str(e)))
+        return
+    finally:
+        K.set_budget(None)
+    ctx.checks += 1
+    ctx.probe("set_built_from_text")
+    ctx.event("text_route", len(got))
+    if got != want or n != len(want):
+        ctx.violation("C10.query_wrong",
+                      dict(task="rrulestr", op=["list"], text=text[:300],
+                           got=RL.show(got), want=RL.show(want), count=n))
 
 
 def simplify(cls, scenario):
